@@ -93,6 +93,9 @@ type (
 	listener struct {
 		close  chan struct{}
 		active int
+		// closed is set once close has been closed while deliveries are
+		// still pending (the entry stays in the map until they are done).
+		closed bool
 	}
 
 	tag struct {
@@ -506,9 +509,15 @@ func (mgr *Manager) Close() {
 			}
 		}
 		for ch, l := range mgr.listeners {
+			if l.closed {
+				continue
+			}
 			if l.active == 0 {
 				delete(mgr.listeners, ch)
 				close(ch)
+			} else {
+				l.closed = true
+				mgr.listeners[ch] = l
 			}
 			close(l.close)
 		}
@@ -2881,12 +2890,15 @@ func (mgr *Manager) Listen() (chan Event, func()) {
 		mgr.jobs <- func() {
 			defer close(c)
 			l, ok := mgr.listeners[ch]
-			if !ok {
+			if !ok || l.closed {
 				return
 			}
 			if l.active == 0 {
 				delete(mgr.listeners, ch)
 				close(ch)
+			} else {
+				l.closed = true
+				mgr.listeners[ch] = l
 			}
 			close(l.close)
 		}
